@@ -77,6 +77,14 @@ def cli_argv(fields, limit, serial, cn, pos, out):
     return argv
 
 
+def _pn(p):
+    return p[1] if isinstance(p, tuple) else p
+
+
+def _pf(p):
+    return 'plotfile' if isinstance(p, tuple) else 'return'
+
+
 def run_slice(mods, ref, fields, limit, serial, cn, ctx, canary=False, concrete_pos=None, prior=(), cli=False):
     Mandoline = mods['amr_kitchen.mandoline.mandoline'].Mandoline
     Taster = mods['amr_kitchen.taste.taste'].Taster
@@ -95,7 +103,7 @@ def run_slice(mods, ref, fields, limit, serial, cn, ctx, canary=False, concrete_
     what = 'Mandoline(fields=%r, limit_level=%r, serial=%r).slice(normal=%d, pos=pos, fformat="plotfile")' % (fields, limit, serial, cn)
     if prior:
         what = 'm = Mandoline(fields=%r, limit_level=%r, serial=%r); %s; m.slice(normal=%d, pos=pos, fformat="plotfile")' % (
-            fields, limit, serial, '; '.join('m.slice(normal=%d, pos=%r, fformat="return")' % (pn, c07.prior_pos(ref, pn)) for pn in prior), cn)
+            fields, limit, serial, '; '.join('m.slice(normal=%d, pos=%r, fformat="%s")' % (_pn(pn), c07.prior_pos(ref, _pn(pn)), _pf(pn)) for pn in prior), cn)
     with patch.Patched(mods, fs), common.quiet():
         try:
             if cli:
@@ -111,8 +119,12 @@ def run_slice(mods, ref, fields, limit, serial, cn, ctx, canary=False, concrete_
             m = None if cli else Mandoline('plt', fields=list(fields), limit_level=limit, serial=serial, verbose=0)
             for pn in prior:
                 # a history on one retained object: a slice along another normal, returned in memory, comes first
+                # (('plt', n): that earlier slice is saved in plotfile format too, to another directory)
                 try:
-                    m.slice(normal=pn, pos=c07.prior_pos(ref, pn), fformat='return')
+                    if _pf(pn) == 'plotfile':
+                        m.slice(normal=_pn(pn), pos=c07.prior_pos(ref, _pn(pn)), outfile='out2d_earlier', fformat='plotfile')
+                    else:
+                        m.slice(normal=pn, pos=c07.prior_pos(ref, pn), fformat='return')
                 except Exception:
                     pass
             if not cli:
@@ -222,7 +234,9 @@ def run_case(case):
                 if sig not in viol:
                     viol[sig] = {'signature': sig, 'what': msg[:400], 'args': [fields, limit, serial, cn], 'pos': posv, 'model': model or ctx.model(), 'cli': True}
     # histories on one retained object
-    for prior, cn in ([((2,), 0), ((0,), 1)] if common.TIER == 'quick' else [((2,), 0), ((0,), 1), ((1, 0), 2)]):
+    # (the last ones: an earlier plotfile-format slice with the same normal at another position, with a returned slice in between)
+    for prior, cn in ([((2,), 0), ((0,), 1), ((('plt', 0),), 0), ((('plt', 1), 2), 1)] if common.TIER == 'quick' else
+                      [((2,), 0), ((0,), 1), ((1, 0), 2), ((('plt', 0),), 0), ((('plt', 1), 2), 1), ((('plt', 2), ('plt', 0)), 2)]):
         fields, limit, serial = fl[1], None, True
 
         def hpath(ctx, fields=fields, limit=limit, serial=serial, cn=cn, prior=prior):
@@ -241,10 +255,10 @@ def run_case(case):
                         posv = common.Valuation(m)(core.real('pos'))
                     except Exception:
                         posv = None
-                sig = 'C16/history/normal%d-after-%s' % (cn, ''.join(str(x) for x in prior))
+                sig = 'C16/history/normal%d-after-%s' % (cn, ''.join(('p%d' % x[1]) if isinstance(x, tuple) else str(x) for x in prior))
                 if sig not in viol:
                     viol[sig] = {'signature': sig, 'what': msg[:400], 'args': [fields, limit, serial, cn], 'pos': posv, 'model': m,
-                                 'prior': [[pn, c07.prior_pos(ref, pn)] for pn in prior]}
+                                 'prior': [[_pn(pn), c07.prior_pos(ref, _pn(pn)), _pf(pn)] for pn in prior]}
 
     def canary(ctx):
         return run_slice(mods, ref, [ref.fields[0]], None, True, 0, ctx, canary=True)
@@ -287,7 +301,7 @@ def make_replay(ref, v):
            "junk = [np.full((64, 64), 1.2345e5) for _ in range(64)]\ndel junk\n"
            "with contextlib.redirect_stdout(io.StringIO()):\n"
            "    m = Mandoline(os.path.join(IN, 'plt'), fields=%r, limit_level=%r, serial=%r, verbose=0)\n"
-           "    for pn, pp in %r:\n        try:\n            m.slice(normal=pn, pos=pp, fformat='return')\n        except Exception:\n            pass\n"
+           "    for pn, pp, pf in %r:\n        try:\n            m.slice(normal=pn, pos=pp, fformat=pf, **({'outfile': OUT + '_earlier'} if pf == 'plotfile' else {}))\n        except Exception:\n            pass\n"
            "    m.slice(normal=%d, pos=%r, outfile=OUT, fformat='plotfile')\n"
            % (list(fields), limit, serial, v.get('prior') or [], cn, posv))
     if v.get('cli'):
